@@ -29,6 +29,7 @@ from .base import (
     BaseGarbageCollector,
     NostrQuery,
     ValidationError,
+    event_from_json,
 )
 from ..config import Config
 from ..errors import StorageError
@@ -674,7 +675,7 @@ class LMDBStorage(BaseStorage):
         Return (event, status)
         """
         try:
-            event = Event(**event_json)
+            event = event_from_json(event_json)
         except Exception:
             self.log.error("bad json")
             raise StorageError("invalid: Bad JSON")
